@@ -34,7 +34,7 @@ var assume = []string{"single-threaded use of every structure (as in the reposit
 func main() {
 	lib.Main(
 		&lib.Prop{ID: "C19", Part: "ziptree", Level: level, NCases: n(1500, 120000), Run: zipTree, Assumptions: assume,
-			Rule: "random Put/Get/AscendPrefix(+early break) sequences (<=60 ops) over <=12 prefix-related binary keys, run against dkv/ziptree and a sorted slice; non-trivial = at least one replacement and one prefix iteration over >=2 nodes; distinct by op-sequence hash"},
+			Rule: "random Put/Get/AscendPrefix(+early break, + a second pass over the same sequence value, + a Put between obtaining and ranging over it) sequences (<=60 ops) over <=12 prefix-related binary keys, run against dkv/ziptree and a sorted slice; non-trivial = at least one replacement and one prefix iteration over >=2 nodes; distinct by op-sequence hash"},
 		&lib.Prop{ID: "C19", Part: "heap", Level: level, NCases: n(1500, 120000), Run: heap, Assumptions: assume,
 			Rule: "Push/Pop/Peek/Fix(after priority change)/Size sequences on ds.Heap with an index assigner; after every op: min equals reference min, every element's assigned index equals its position (checked through Fix of that index being a no-op on order) ; non-trivial = >=1 Fix that moved and >=1 duplicate priority"},
 		&lib.Prop{ID: "C19", Part: "ppq", Level: level, NCases: n(1500, 120000), Run: ppq, Assumptions: assume,
